@@ -27,7 +27,7 @@ from .core import (Check, EventLog, Violation, HarnessError, World, RngSeam, lib
 POLY_ALGS = ("ico", "cube3D", "cube4D")
 DIM = {"ico": 3, "cube3D": 3, "randomS": 3, "zero3D": 3, "cube4D": 4, "randomQ": 4, "fulldiv": 4, "zero4D": 4}
 SPHERE_GETTERS_3D = ("array", "array_full", "adjacency", "borders", "distances", "volumes", "volumes_approx",
-                     "volumes")
+                     "volumes", "hull_measures")
 SPHERE_GETTERS_4D = ("array", "array_full", "adjacency", "borders", "distances", "volumes", "hull_measures")
 FULL_GETTERS = ("full_array", "total_volumes", "full_adjacency", "full_borders", "full_distances",
                 "position_volumes", "position_adjacency", "position_borders", "position_distances",
@@ -294,6 +294,12 @@ class SessionCheck(Check):
                 slots = {}
                 restarted = True
                 continue
+            if slots and rng.random() < 0.06:
+                # other public entry points of the package used in the same process (plotting helpers, index helpers)
+                ops.append({"op": "aux", "slot": rng.choice(sorted(slots)),
+                            "what": rng.choice(["position_voronoi", "related_half", "upper_indices", "names",
+                                                "raw_voronoi", "o_b_t"])})
+                continue
             r = rng.random()
             if not slots or (r < 0.22 and len(slots) < 4):
                 spec = dict(rng.choice(pool))
@@ -316,6 +322,14 @@ class SessionCheck(Check):
                 slot = rng.choice(sorted(slots))
                 getter = rng.choice(self._getters_for(slots[slot]))
                 ops.append({"op": "get", "slot": slot, "getter": getter})
+        if tier == "thorough" and rng.random() < 0.012:
+            # the one admissible fulldiv size that takes a minute to build, followed by the smaller ones
+            ops = ops[: rng.randint(0, 6)]
+            ops = [o for o in ops if o["op"] == "fault"]
+            for slot, n in ((0, rng.choice([40, 272])), (1, 272), (2, 40), (3, 8)):
+                ops.append({"op": "create", "slot": slot, "spec": {"type": "sphere", "alg": "fulldiv", "N": n}})
+                ops.append({"op": "get", "slot": slot, "getter": "array"})
+            ops.append({"op": "get", "slot": 0, "getter": rng.choice(["array", "array_full"])})
         return {"kind": "history", "rng_init": rng.randrange(2 ** 32), "ops": ops}
 
     # ------------------------------------------------------------------ references
@@ -474,6 +488,20 @@ class SessionCheck(Check):
                         probes["two_live_objects_same_spec"] = probes.get("two_live_objects_same_spec", 0) + 1
                     log.add("user", "create", spec_key(spec))
                     sig.append(("create", spec_key(spec)))
+                elif kind == "aux":
+                    if op["slot"] not in live or isinstance(live[op["slot"]][1], str):
+                        continue
+                    spec, obj, hist = live[op["slot"]]
+                    # not judged (the statement is about grids and their geometry getters): these calls only have
+                    # to leave the later observations untouched
+                    try:
+                        with quiet():
+                            self._aux_call(obj, spec, op["what"])
+                    except Exception:  # noqa: BLE001
+                        probes["aux_call_raised"] = probes.get("aux_call_raised", 0) + 1
+                    faults["aux_public_call_" + op["what"]] = faults.get("aux_public_call_" + op["what"], 0) + 1
+                    log.add("user", "aux", [spec_key(spec), op["what"]])
+                    sig.append(("aux", op["what"]))
                 elif kind == "drop":
                     live.pop(op["slot"], None)
                     import gc
@@ -531,6 +559,43 @@ class SessionCheck(Check):
         return {"events": log.n, "fingerprint": log.digest(), "faults": faults, "probes": probes,
                 "sig": repr(sig), "nontrivial": nontrivial, "compared": compared,
                 "inter": repr([s[:2] for s in sig])}
+
+    @staticmethod
+    def _aux_call(obj, spec, what):
+        from molgri.space.voronoi import PositionVoronoi
+        from molgri.space.fullgrid import from_full_array_to_o_b_t
+        if spec["type"] == "sphere":
+            sv = obj.get_spherical_voronoi()
+            if what == "position_voronoi" and DIM[spec["alg"]] == 3 and spec["N"] >= 4:
+                pv = PositionVoronoi(np.array(obj.get_grid_as_array(), copy=True), np.array([1.0, 2.0, 3.5]))
+                pv.get_voronoi_volumes()
+            elif what == "related_half" and hasattr(sv, "get_related_half_voronoi"):
+                sv.get_related_half_voronoi()
+            elif what == "upper_indices":
+                obj.get_upper_indices()
+            elif what == "names":
+                obj.get_name()
+                obj.get_decorator_name()
+                str(obj)
+            elif what == "raw_voronoi" and hasattr(sv, "get_all_voronoi_vertices"):
+                sv.get_all_voronoi_vertices(reduced=True)
+                sv.get_all_voronoi_regions(reduced=False)
+                sv.get_all_voronoi_centers()
+        else:
+            if what == "position_voronoi":
+                o = np.array(obj.get_position_grid().get_o_grid().get_grid_as_array(only_upper=False), copy=True)
+                if len(o) >= 4:
+                    PositionVoronoi(o, np.array(obj.get_position_grid().get_radii(), dtype=float)).get_voronoi_volumes()
+            elif what == "names":
+                obj.get_name()
+                len(obj)
+                obj.get_b_N(), obj.get_o_N(), obj.get_t_N()
+            elif what == "upper_indices":
+                obj.get_position_index()
+                obj.get_quaternion_index()
+                obj.get_adjacency_of_orientation_grid()
+            elif what == "o_b_t":
+                from_full_array_to_o_b_t(np.array(obj.get_full_grid_as_array(), copy=True))
 
     def shrink_candidates(self, sc):
         import copy
@@ -631,21 +696,38 @@ class PolytopeCheck(Check):
 
     def generate(self, rng, tier):
         kind = rng.choice(["ico", "cube3D", "cube4D", "ico", "cube3D"])
-        if tier == "quick":
-            # level 4 costs ~1 s per divide: reached in a fraction of the quick runs, routinely in thorough
-            deep = rng.random() < 0.25
-            max_level = {"ico": 4 if deep else 3, "cube3D": 4 if deep else 3, "cube4D": 1}[kind]
-        else:
-            max_level = {"ico": rng.choice([3, 4]), "cube3D": rng.choice([3, 4]), "cube4D": rng.choice([1, 1, 2])}[kind]
-        n_inst = rng.choice([1, 2])
+        n_inst = rng.choice([1, 2, 2, 3])
+        # usually one type; sometimes different solids live in the same process (class-level state would show)
+        types = [kind] * n_inst if rng.random() < 0.6 else [rng.choice(["ico", "cube3D", "cube4D"]) for _ in range(n_inst)]
+        max_levels = []
+        for kd in types:
+            if tier == "quick":
+                # level 4 costs ~1 s per divide: reached in a fraction of the quick runs, routinely in thorough
+                deep = rng.random() < 0.25
+                max_levels.append({"ico": 4 if deep else 3, "cube3D": 4 if deep else 3, "cube4D": 1}[kd])
+            else:
+                max_levels.append({"ico": rng.choice([3, 4]), "cube3D": rng.choice([3, 4]),
+                                   "cube4D": rng.choice([1, 1, 2])}[kd])
         fault_rate = rng.choice([0.0, 0.2, 0.4])
         levels = [0] * n_inst
+        born = [False] * n_inst
         ops = []
-        for _ in range(rng.randint(3, 14)):
+        for _ in range(rng.randint(3, 14 if tier == "quick" else 22)):
             if rng.random() < fault_rate:
                 ops.append({"op": "fault", "fault": RngSeam.generate(rng)})
                 continue
             i = rng.randrange(n_inst)
+            kind, max_level = types[i], max_levels[i]
+            if not born[i]:
+                # objects are created in the middle of the history, not all at its start
+                born[i] = True
+                ops.append({"op": "create", "inst": i, "observe": rng.choice(["all", "all", "none"])})
+                continue
+            if rng.random() < 0.18:
+                # other public methods of the object, called between the operations the property talks about
+                ops.append({"op": "aux", "inst": i,
+                            "what": rng.choice(["cells", "cells", "adjacency", "cdist", "neighbours"])})
+                continue
             r = rng.random()
             if r < 0.35 and levels[i] < max_level:
                 levels[i] += 1
@@ -662,13 +744,16 @@ class PolytopeCheck(Check):
             else:
                 ops.append({"op": "nodes", "inst": i, "frac": None, "projection": False})
         # make sure the deepest level is reached in some runs
-        if rng.random() < 0.5:
-            i = rng.randrange(n_inst)
+        born_idx = [i for i in range(n_inst) if born[i]]
+        if born_idx and rng.random() < 0.5:
+            i = rng.choice(born_idx)
+            kind, max_level = types[i], max_levels[i]
+            first = next(k for k, o in enumerate(ops) if o.get("op") == "create" and o.get("inst") == i)
             while levels[i] < max_level:
                 levels[i] += 1
-                ops.insert(rng.randrange(len(ops) + 1), {"op": "divide", "inst": i,
-                                                         "observe": rng.choice(["all", "nodes", "none"])})
-        return {"kind": "polytope", "type": kind, "n_inst": n_inst, "ops": ops}
+                ops.insert(rng.randrange(first + 1, len(ops) + 1), {"op": "divide", "inst": i,
+                                                                  "observe": rng.choice(["all", "nodes", "none"])})
+        return {"kind": "polytope", "type": types[0], "types": types, "n_inst": n_inst, "ops": ops}
 
     _ideal_cache: dict = {}
 
@@ -731,21 +816,31 @@ class PolytopeCheck(Check):
 
     def execute(self, sc):
         from molgri.space import polytopes as P
-        cls = {"ico": P.IcosahedronPolytope, "cube3D": P.Cube3DPolytope, "cube4D": P.Cube4DPolytope}[sc["type"]]
-        kind = sc["type"]
+        classes = {"ico": P.IcosahedronPolytope, "cube3D": P.Cube3DPolytope, "cube4D": P.Cube4DPolytope}
+        types = sc.get("types") or [sc["type"]] * sc["n_inst"]
         log = EventLog()
         faults, probes = {}, {}
-        sig = [kind, sc["n_inst"]]
+        sig = [tuple(types)]
         divides = 0
         touched = set()
+        explicit_create = any(o.get("op") == "create" for o in sc["ops"])
         with World(clock=False):
-            insts, levels, logs = [], [], []
-            for i in range(sc["n_inst"]):
-                with lib_call(f"create {kind} polytope #{i}"):
-                    insts.append(cls())
-                levels.append(0)
-                logs.append({"nodes": np.zeros((0, 3 if kind != "cube4D" else 4))})
-                self._check_instance(kind, insts[i], 0, logs[i], f"{kind}#{i} level 0")
+            insts, levels, logs = [None] * len(types), [0] * len(types), [None] * len(types)
+
+            def create(i, observe="all"):
+                kd = types[i]
+                with lib_call(f"create {kd} polytope #{i}"):
+                    insts[i] = classes[kd]()
+                levels[i] = 0
+                logs[i] = {"nodes": np.zeros((0, 3 if kd != "cube4D" else 4))}
+                if observe != "none":
+                    self._check_instance(kd, insts[i], 0, logs[i], f"{kd}#{i} level 0")
+
+            if not explicit_create:
+                for i in range(len(types)):
+                    create(i)
+            if len(set(types)) > 1:
+                probes["different_solids_in_one_process"] = 1
             for step, op in enumerate(sc["ops"]):
                 if op["op"] == "fault":
                     RngSeam.apply(op["fault"])
@@ -756,9 +851,44 @@ class PolytopeCheck(Check):
                 i = op["inst"]
                 if i >= len(insts):
                     continue
+                kind = types[i]
+                if op["op"] == "create":
+                    if insts[i] is None:
+                        create(i, op.get("observe", "all"))
+                        if any(x is not None for k_, x in enumerate(insts) if k_ != i):
+                            probes["created_mid_history"] = probes.get("created_mid_history", 0) + 1
+                        log.add(f"poly{i}", "create", kind)
+                        sig.append(("create", i, kind))
+                    continue
+                if insts[i] is None:
+                    continue  # shrinking may have removed the creation
                 poly = insts[i]
                 touched.add(i)
                 what = f"step {step} {kind}#{i}"
+                if op["op"] == "aux":
+                    # calls the property does not talk about; they must not disturb what it does talk about
+                    # (what they return or raise is not judged: the statement is silent about them)
+                    try:
+                        with quiet():
+                            if op["what"] == "cells" and kind == "cube4D":
+                                for cell in poly.get_all_cells():
+                                    for kw in ({}, {"projection": True}):
+                                        try:
+                                            cell.get_nodes(**kw)
+                                        except Exception:  # noqa: BLE001
+                                            probes["aux_call_raised"] = probes.get("aux_call_raised", 0) + 1
+                            elif op["what"] == "adjacency":
+                                poly.get_polytope_adj_matrix()
+                            elif op["what"] == "cdist" and levels[i] <= 2:
+                                poly.get_cdist_matrix()
+                            elif op["what"] == "neighbours":
+                                poly.get_neighbours_of(0)
+                    except Exception:  # noqa: BLE001
+                        probes["aux_call_raised"] = probes.get("aux_call_raised", 0) + 1
+                    faults["aux_public_call_" + op["what"]] = faults.get("aux_public_call_" + op["what"], 0) + 1
+                    log.add(f"poly{i}", "aux", op["what"])
+                    sig.append(("aux", i, op["what"]))
+                    continue
                 if op["op"] == "divide":
                     with lib_call(what + " divide_edges"):
                         poly.divide_edges()
@@ -822,6 +952,9 @@ class PolytopeCheck(Check):
                     log.add(f"poly{i}", "half", [N, op["projection"]], digest_any(part))
                 sig.append((op["op"], i, levels[i], op.get("observe")))
             for i, poly in enumerate(insts):
+                if poly is None:
+                    continue
+                kind = types[i]
                 self._check_instance(kind, poly, levels[i], logs[i], f"final state of {kind}#{i} (level {levels[i]})")
                 if kind == "cube4D":
                     with lib_call(f"final get_half_of_hypercube of {kind}#{i}"):
@@ -858,8 +991,8 @@ class PolytopeCheck(Check):
 
     def shrink_candidates(self, sc):
         import copy
-        if sc["n_inst"] == 2:
-            c = copy.deepcopy(sc)
-            c["n_inst"] = 1
-            c["ops"] = [o for o in c["ops"] if o.get("inst", 0) == 0]
-            yield c
+        if sc["n_inst"] >= 2:
+            for keep in range(sc["n_inst"]):
+                c = copy.deepcopy(sc)
+                c["ops"] = [o for o in c["ops"] if o.get("inst", keep) == keep]
+                yield c
